@@ -1,4 +1,5 @@
 import PV.Prog.Lemmas
+import PV.Prog.RenderLemmas
 /-
   PV.Prog.Thm — theorems about the reference parser for whole programs `PV.Prog.parseProgram`
   (lean/PV/Prog/Parse.lean; tied to the generated LR parser by the PROG correspondence streams).
@@ -13,6 +14,8 @@ import PV.Prog.Lemmas
                                                       Interactive mode = Module mode
   (d) `elif_chain_spec`, `import_level_spec`, `annassign_simple_spec` (+ `annassign_bare_name`)
                                                       the hand-written action code at program level
+  (e) `render_parse_partial`                          printing a program of the fragment (`PV.Prog.Render`) in canonical
+                                                      layout and parsing it gives the program back
 -/
 namespace PV.Prog
 open PV.Expr PV.C11
@@ -317,5 +320,46 @@ theorem annassign_paren_name_simple :
     parseProgram .module [.e (.op .lpar), .e (.name [120]), .e (.op .rpar), .e (.op .colon), .e (.name [105]), .newline]
     = some (.module [.annAssign (.name [120]) (.name [105]) none true]) := by rfl
 
+
+/-! ## (e) print, then parse -/
+
+/-- **Round trip through the printer, on the fragment**: for a module / interactive body made of Pass, Break,
+    Continue, expression statements, Return, If and While (non-empty bodies, optional `else`, nested arbitrarily)
+    over C11's expression fragment — or an expression of that fragment in Expression mode — the rendering in
+    canonical layout is accepted (by every sufficiently large fuel) and parses back to the same tree. -/
+theorem render_parse_partial (m : Mod) (h : inFragM m = true) : Accepts (modeOf m) (render m) m := by
+  cases m with
+  | module ss =>
+    obtain ⟨n, hn⟩ := progRT ss h
+    refine ⟨n, ?_⟩
+    have h1 := hn n (Nat.le_refl n)
+    simp only [] at h1
+    simp only [modeOf, render, parseProgramFuel, map_toTok_ofTok, parseTopT, h1]
+  | interactive ss =>
+    obtain ⟨n, hn⟩ := progRT ss h
+    refine ⟨n, ?_⟩
+    have h1 := hn n (Nat.le_refl n)
+    simp only [] at h1
+    simp only [modeOf, render, parseProgramFuel, map_toTok_ofTok, parseTopT, h1]
+  | expression e =>
+    obtain ⟨n, hn⟩ := evT_commaList e h []
+    refine ⟨n, ?_⟩
+    have h1 := hn n (Nat.le_refl n)
+    simp only [] at h1
+    simp only [modeOf, render, parseProgramFuel, map_toTok_ofTok, parseTopT, parseTestListS, h1]
+    simp [genericList, tk_tNewline]
+
+/-- the full statement, NOT proved: every tree the parser can produce is read back from its rendering.  (It needs
+    `render` for the remaining 20 statement forms and the patterns; it is false for the present `render`, which prints
+    nothing for them.) -/
+def render_parse_full : Prop :=
+  ∀ (m : Mod), (∃ ts, Accepts (modeOf m) ts m) → Accepts (modeOf m) (render m) m
+
+/-- `while a:⏎ if b:⏎  return c⏎ else:⏎  break⏎x⏎` -/
+def sampleProgram : Mod :=
+  .module [.while (.name [97]) [.if (.name [98]) [.return (some (.name [99]))] [.break]] [], .expr (.name [120])]
+
+example : inFragM sampleProgram = true := by decide
+example : parseProgram .module (render sampleProgram) = some sampleProgram := by rfl
 
 end PV.Prog
